@@ -96,7 +96,11 @@ EqVerdict(r) ==
       scp == ~r.ast \/ \A l \in Lays(r) : ScopeOK(r.prog, l)
       cls == r.exp = "" \/ \A j \in 1..Len(r.obs) : r.obs[j].out.o = r.exp
       nlay == Cardinality(Lays(r))
-  IN [id |-> r.id, eq |-> eq, shape |-> shp, scope |-> scp, cls |-> cls, nlay |-> nlay,
+      \* r.xv: the value the specification itself prescribes ("" = none): a string
+      okv(j) == r.obs[j].out.o = "value" /\ r.obs[j].out.v.t = "str" /\ r.obs[j].out.v.s = r.xv
+      val == r.xv = "" \/ \A j \in 1..Len(r.obs) : okv(j)
+  IN [id |-> r.id, eq |-> eq, shape |-> shp, scope |-> scp, cls |-> cls, nlay |-> nlay, val |-> val,
+      firstval |-> IF val THEN 0 ELSE CHOOSE j \in 1..Len(r.obs) : ~okv(j),
       first |-> IF eq THEN 0 ELSE CHOOSE j \in 1..Len(r.obs) : r.obs[j].log # o1.log \/ r.obs[j].out # o1.out,
       firstcls |-> IF cls THEN 0 ELSE CHOOSE j \in 1..Len(r.obs) : r.obs[j].out.o # r.exp]
 EqInit == /\ rec_i \in 1..Len(Recs) /\ cur = <<>> /\ mst = [ctl |-> [m |-> "halt"]]
@@ -110,6 +114,7 @@ EqNext == UNCHANGED vars
 \*   FF  failing programs    : what fails x how deep x how the functions are made x what encloses the failing statement
 \*   FV  bystander programs  : use the names of FF's locals as globals / locals / undeclared names / labels
 \*   TX  programs whose built-ins compile or parse text at run time (regex literals, RegExp, string patterns, eval, ...)
+\*   PK  computed property keys : kind of the key value x converting construct x container x where the key comes from
 \*   H*  histories           : which programs are evaluated, in which order, on fresh contexts of ONE process, how often,
 \*                             and how much time passes between two evaluations
 \* ====================================================================================================================
@@ -398,14 +403,106 @@ SLCases == [k : {"sl"}, sh : {"locals", "cells", "frees", "manycells"}, n : (IF 
 TXrCases == {c \in TXrAll : TXrValid(c) /\ (~Quick \/ TXrQuickSel(c))} \cup {[k |-> "x", j |-> j] : j \in 1..Len(TXOther)} \cup SLCases
 TXText(c) == IF c.k = "rx" THEN TXSrc(c) ELSE IF c.k = "sl" THEN SLSrc(c) ELSE TXOther[c.j]
 
+\* ======================= family PK: computed property keys (round 3) ====================================================
+\* A value used as a computed key names a property through ToPropertyKey (ECMA-262 7.1.19): the name is a function of the JS
+\* value alone.  The host may identify values that JS keeps apart (Python: True == 1, False == 0, 1.0 == 1, -0.0 == 0) and
+\* keep apart values that name one property (1, 1.0, "1").  key: the kind of value x op: the construct that converts it (read,
+\* write, compound write, `in`, hasOwnProperty, delete) x cont: what is indexed (plain object, array with extra named
+\* properties) x src: the key is written in the brackets or arrives as a parameter.  The container holds a value under every
+\* name any of the keys can stand for (set through string keys), so a key converted to ANOTHER key's name shows.  The expected
+\* value is computed here (PKExpect) and judged by EqVerdict (clause val): the programs are outside the MiniJS fragment.
+\* The histories HK evaluate the programs of one key and then those of another in one pristine process, every ordered pair.
+PKKeys == <<"i0", "i1", "bt", "bf", "f1", "fc", "nz", "s0", "s1", "st", "sf", "nul", "und", "h15">>
+PKKeySet == {PKKeys[j] : j \in 1..Len(PKKeys)}
+PKLit(k) == CASE k = "i0" -> "0" [] k = "i1" -> "1" [] k = "bt" -> "true" [] k = "bf" -> "false" [] k = "f1" -> "1.0"
+              [] k = "fc" -> "(0.5 + 0.5)" [] k = "nz" -> "(-0)" [] k = "s0" -> "\"0\"" [] k = "s1" -> "\"1\"" [] k = "st" -> "\"true\""
+              [] k = "sf" -> "\"false\"" [] k = "nul" -> "null" [] k = "und" -> "undefined" [] k = "h15" -> "1.5"
+\* the property name the key stands for
+PKName(k) == CASE k \in {"i0", "nz", "s0"} -> "0" [] k \in {"i1", "f1", "fc", "s1"} -> "1" [] k \in {"bt", "st"} -> "true"
+               [] k \in {"bf", "sf"} -> "false" [] k = "nul" -> "null" [] k = "und" -> "undefined" [] k = "h15" -> "1.5"
+PKProbe == <<"0", "1", "true", "false", "null", "undefined", "1.5">>
+PKProbeSet == {PKProbe[j] : j \in 1..Len(PKProbe)}
+PKInitVal(n) == CASE n = "0" -> "z" [] n = "1" -> "u" [] n = "true" -> "T" [] n = "false" -> "F" [] n = "null" -> "N"
+                  [] n = "undefined" -> "U" [] n = "1.5" -> "h"
+PKOpSeq == <<"set", "get", "casg", "in", "has", "del">>
+PKOps == {PKOpSeq[j] : j \in 1..Len(PKOpSeq)}
+PKConts == {"obj", "arr"}
+PKSrcs == {"lit", "param"}
+\* the names the container has: all of them, except for the two membership tests (there some are absent, and each group of
+\* keys the host might identify - 1 / true, 0 / false - has a present and an absent name)
+\* Arrays (/repo/spec.md, "Stricter Mode": no holes; vm.py _set_property refuses a non-integer number as the name of an array
+\* property): the array container has no property "1.5", the key 1.5 is not generated for it, nor the deletion of an element.
+PKPresent(c) == IF c.op \in {"in", "has"} THEN (IF c.cont = "obj" THEN {"1", "false", "null", "1.5"} ELSE {"0", "1", "null"})
+                ELSE IF c.cont = "arr" THEN PKProbeSet \ {"1.5"} ELSE PKProbeSet
+PKValid(c) == /\ (c.cont = "arr" => c.key # "h15")
+              /\ (c.cont = "arr" /\ c.op = "del" => PKName(c.key) \notin {"0", "1"})
+RECURSIVE PKSetupR(_, _)
+PKSetupR(c, j) == IF j > Len(PKProbe) THEN ""
+                  ELSE (IF PKProbe[j] \in PKPresent(c) /\ ~(c.cont = "arr" /\ PKProbe[j] \in {"0", "1"})
+                        THEN "o[" \o TXQ(PKProbe[j]) \o "] = " \o TXQ(PKInitVal(PKProbe[j])) \o "; " ELSE "") \o PKSetupR(c, j + 1)
+PKSetup(c) == (IF c.cont = "obj" THEN "var o = {}; " ELSE "var o = [\"z\", \"u\"]; ") \o PKSetupR(c, 1)
+RECURSIVE PKProbeTextR(_)
+PKProbeTextR(j) == "String(o[" \o TXQ(PKProbe[j]) \o "])" \o (IF j = Len(PKProbe) THEN "" ELSE " + \",\" + " \o PKProbeTextR(j + 1))
+PKBody(c) ==
+  LET K == IF c.src = "param" THEN "k" ELSE PKLit(c.key) IN
+  CASE c.op = "get" -> "return String(o[" \o K \o "]);"
+    [] c.op = "set" -> "o[" \o K \o "] = \"W\"; return " \o PKProbeTextR(1) \o ";"
+    [] c.op = "casg" -> "o[" \o K \o "] += \"W\"; return " \o PKProbeTextR(1) \o ";"
+    [] c.op = "in" -> "return String(" \o K \o " in o);"
+    [] c.op = "has" -> "return String(o.hasOwnProperty(" \o K \o "));"
+    [] c.op = "del" -> "delete o[" \o K \o "]; return " \o PKProbeTextR(1) \o ";"
+PKSrc(c) == IF c.src = "param"
+            THEN "function F(k) { " \o PKSetup(c) \o PKBody(c) \o " } F(" \o PKLit(c.key) \o ") + \"|\" + F(" \o PKLit(c.key) \o ");"
+            ELSE "function F() { " \o PKSetup(c) \o PKBody(c) \o " } F() + \"|\" + F();"
+\* what the program yields: the container as a function name -> String(value) ("undefined" for a name it does not have)
+RECURSIVE PKJoinR(_, _)
+PKJoinR(m, j) == m[PKProbe[j]] \o (IF j = Len(PKProbe) THEN "" ELSE "," \o PKJoinR(m, j + 1))
+PKExpect(c) ==
+  LET nm == PKName(c.key)
+      m0 == [n \in PKProbeSet |-> IF n \in PKPresent(c) THEN PKInitVal(n) ELSE "undefined"]
+      one == CASE c.op = "get" -> m0[nm]
+               [] c.op = "set" -> PKJoinR([m0 EXCEPT ![nm] = "W"], 1)
+               [] c.op = "casg" -> PKJoinR([m0 EXCEPT ![nm] = @ \o "W"], 1)
+               [] c.op \in {"in", "has"} -> (IF nm \in PKPresent(c) THEN "true" ELSE "false")
+               [] c.op = "del" -> PKJoinR([m0 EXCEPT ![nm] = "undefined"], 1)
+  IN one \o "|" \o one
+PKAll == [key : PKKeySet, op : PKOps, cont : PKConts, src : PKSrcs]
+\* quick: every key x construct on an object with the key as a parameter, and on an array with the key in the brackets
+\* (and what is not generated for the array, in the brackets of an object access)
+PKQuickSel(c) == (c.cont = "obj" /\ c.src = "param") \/ (c.cont = "arr" /\ c.src = "lit") \/ (c.cont = "obj" /\ c.src = "lit" /\ ~PKValid([c EXCEPT !.cont = "arr"]))
+PKQuickCases == {c \in PKAll : PKValid(c) /\ PKQuickSel(c)}
+PKCases == IF Quick THEN PKQuickCases ELSE {c \in PKAll : PKValid(c)}
+\* HK: the programs of key k1, then those of key k2 (same container and key source), pristine process, two rounds
+HKAll == [k1 : PKKeySet, k2 : PKKeySet, cont : PKConts, src : PKSrcs, clk : {"b2b", "gap"}]
+HKValid(h) == h.k1 # h.k2 /\ (h.cont = "arr" => "h15" \notin {h.k1, h.k2})
+HKQuickSel(h) == (h.cont = "obj" /\ h.src = "param" /\ h.clk = "b2b") \/ (h.cont = "arr" /\ h.src = "lit" /\ h.clk = "gap")
+HKQuickCases == {h \in HKAll : HKValid(h) /\ HKQuickSel(h)}
+HKCases == IF Quick THEN HKQuickCases ELSE {h \in HKAll : HKValid(h)}
+HKItems(h) == SelectSeq([j \in 1..(2 * Len(PKOpSeq)) |->
+                 [fam |-> "PK", c |-> [key |-> IF j <= Len(PKOpSeq) THEN h.k1 ELSE h.k2, op |-> PKOpSeq[((j - 1) % Len(PKOpSeq)) + 1],
+                                       cont |-> h.cont, src |-> h.src]]], LAMBDA it : PKValid(it.c))
+\* the quick sub-grid contains every class: every key under every construct for both containers and both key sources, every
+\* ordered pair of keys as a history under both containers / key sources / clocks, and every history refers to enumerated programs
+PKGridLaw ==
+  /\ \A c \in PKAll : PKValid(c) => /\ \E q \in PKQuickCases : q.key = c.key /\ q.op = c.op /\ q.cont = c.cont
+                                    /\ \E q \in PKQuickCases : q.key = c.key /\ q.op = c.op /\ q.src = c.src
+  /\ \A h \in HKAll : HKValid(h) => \E q \in HKQuickCases : q.k1 = h.k1 /\ q.k2 = h.k2 /\ q.cont = h.cont
+  /\ \A k1, k2 \in PKKeySet \ {"h15"} : k1 # k2 => \A ck \in {"b2b", "gap"} : \E q \in HKQuickCases : q.k1 = k1 /\ q.k2 = k2 /\ q.clk = ck
+  /\ \A h \in HKQuickCases : \A j \in 1..Len(HKItems(h)) : HKItems(h)[j].c \in PKQuickCases
+  /\ \A k \in PKKeySet : PKName(k) \in PKProbeSet
+ASSUME PKGridLaw
+
 \* ======================= programs and histories ============================================================================
 ProgItems == {[fam |-> "CO", c |-> c] : c \in COCases} \cup {[fam |-> "WS", c |-> c] : c \in WSCases} \cup {[fam |-> "FF", c |-> c] : c \in FFCases}
              \cup {[fam |-> "FV", c |-> [kd |-> kd]] : kd \in FVKinds} \cup {[fam |-> "TX", c |-> c] : c \in TXrCases}
+             \cup {[fam |-> "PK", c |-> c] : c \in PKCases}
 ItemId(it) == it                              \* the parameter record itself (printed as JSON; the driver uses it as a key)
-ItemAst(it) == it.fam # "TX"
+ItemAst(it) == it.fam \notin {"TX", "PK"}
 ItemProg(it) == CASE it.fam = "CO" -> COProg(it.c) [] it.fam = "WS" -> WSProg(it.c) [] it.fam = "FF" -> FFProg(it.c) [] it.fam = "FV" -> FVProg(it.c.kd) [] OTHER -> Prog(<<>>)
 ItemRef(it) == CASE it.fam \in {"CO", "WS"} -> TRUE [] it.fam = "FF" -> FFRef(it.c) [] it.fam = "FV" -> ~FVIsExit(it.c.kd) [] OTHER -> FALSE
-ItemExp(it) == CASE it.fam \in {"CO", "WS"} -> "value" [] it.fam = "FF" -> FFExp(it.c) [] it.fam = "FV" -> FVExp(it.c.kd) [] OTHER -> ""
+ItemExp(it) == CASE it.fam \in {"CO", "WS"} -> "value" [] it.fam = "FF" -> FFExp(it.c) [] it.fam = "FV" -> FVExp(it.c.kd) [] it.fam = "PK" -> "value" [] OTHER -> ""
+\* the value the specification prescribes for the program ("": the outcome class only, or the reference machine decides)
+ItemXv(it) == IF it.fam = "PK" THEN PKExpect(it.c) ELSE ""
 \* A history: programs evaluated one after the other, each on a fresh context, in one process that evaluated nothing before;
 \* the whole list `rounds` times; clk = "b2b": the clock only moves while a program runs, "gap": between two evaluations
 \* more time passes than any context's time limit.
@@ -426,14 +523,14 @@ TXOfPat(pat) == IF pat = 0 THEN {c \in TXrCases : c.k = "x"} ELSE {c \in TXrCase
 HTCases == [pat : 0..Len(TXPats), rot : IF Quick THEN {0} ELSE {0, 5}, clk : {"b2b", "gap"}]
 SXQ == INSTANCE SequencesExt
 HTItems(h) == LET sq == SXQ!SetToSeq({ItemId([fam |-> "TX", c |-> c]) : c \in TXOfPat(h.pat)}) IN Rot(sq, h.rot % Len(sq))
-HistItems == {[fam |-> "HF", c |-> h] : h \in HFCases} \cup {[fam |-> "HT", c |-> h] : h \in HTCases}
-IsHist(it) == it.fam \in {"HF", "HT"}
+HistItems == {[fam |-> "HF", c |-> h] : h \in HFCases} \cup {[fam |-> "HT", c |-> h] : h \in HTCases} \cup {[fam |-> "HK", c |-> h] : h \in HKCases}
+IsHist(it) == it.fam \in {"HF", "HT", "HK"}
 C15Items == ProgItems \cup HistItems
 ItemJson(it, steps) ==
   IF IsHist(it)
-  THEN [kind |-> "hist", id |-> ItemId(it), fam |-> it.fam, items |-> IF it.fam = "HF" THEN HFItems(it.c) ELSE HTItems(it.c), rounds |-> 2, clk |-> it.c.clk]
+  THEN [kind |-> "hist", id |-> ItemId(it), fam |-> it.fam, items |-> IF it.fam = "HF" THEN HFItems(it.c) ELSE IF it.fam = "HK" THEN HKItems(it.c) ELSE HTItems(it.c), rounds |-> 2, clk |-> it.c.clk]
   ELSE [kind |-> "prog", id |-> ItemId(it), fam |-> it.fam, par |-> it.c, ast |-> ItemAst(it), prog |-> ItemProg(it),
-        src |-> IF it.fam = "TX" THEN TXText(it.c) ELSE "", ref |-> ItemRef(it), exp |-> ItemExp(it),
+        src |-> IF it.fam = "TX" THEN TXText(it.c) ELSE IF it.fam = "PK" THEN PKSrc(it.c) ELSE "", ref |-> ItemRef(it), exp |-> ItemExp(it), xv |-> ItemXv(it),
         ml |-> IF it.fam = "FF" THEN FFMem(it.c) ELSE 0, steps |-> steps]
 \* Enum15: every program MiniJS can run runs on the reference machine (its invariants on every state, termination inside the
 \* fragment); the others and the histories are printed as they are
